@@ -209,6 +209,9 @@ def check_oceanic(V, c, t):
             if T is None:
                 continue
             V.count()
+            if T != T or abs(T) == float('inf'):
+                V.violation('temperature-not-finite:oceanic:%s' % name, {'world': t['fn'], 'model': t['model'], 'cmd': c.cmds[idx], 'T': T})
+                continue
             d = x if prof['kind'] == 'depth' else prof['depth']
             dist = prof.get('dist') if prof['kind'] == 'depth' else x
             Tb = Tb_at(d)
@@ -314,6 +317,9 @@ def check_linear(V, c, t):
             continue
         V.count()
         T = v[0]
+        if T != T or abs(T) == float('inf'):
+            V.violation('temperature-not-finite:linear', {'world': t['fn'], 'model': t['model'], 'depth': d, 'T': T})
+            continue
         slack = 1e-9 * Tb
         detail = {'world': t['fn'], 'feature': t['feature'], 'model': t['model'], 'depth': d, 'T': T, 'local_top': t['top'], 'local_bottom': t['bot']}
         key_f = t['feature'][0]
@@ -445,6 +451,9 @@ def check_slab(V, c, t):
             continue
         V.count()
         T = v[0]
+        if T != T or abs(T) == float('inf'):
+            V.violation('temperature-not-finite:slab', {'world': t['fn'], 'model': t['model'], 'depth': depth, 'T': T})
+            continue
         hot = adiabat(g, depth)           # the slab is the only feature: the temperature painted before is the background adiabat
         mm = t['model']
         if mm.get('thermal expansion coefficient', -1) > 0 or mm.get('specific heat', -1) > 0:
